@@ -81,8 +81,30 @@ def part_traces():
     corrupt('flag', base, lambda t: t['events'][3].__setitem__('hc', True), 'C17.FlagDiscipline')
     corrupt('header-id', base, lambda t: [e for e in t['events'] if e['op'] == 'add_lf'][0]['fh_id'].append(88), 'C09.HeaderId')
     corrupt('index-vals', base, lambda t: wr(t)['frames'][0]['index']['vals'][0].__setitem__('lo', 2), 'C13.IndexMin')
+    # the user's choice of an origin reference (Canon) against the origin field written
+    corrupt('origin-choice', base, lambda t: [e for e in t['events'] if e['op'] == 'add' and e['cls'] == [90, 79, 78, 69]][0].__setitem__('origin', 3), 'C07.OriginChosen')
+    # a wide integer index: the recorded image of the exact minimum
+    w = Prog('st-wide')
+    wl = w.lf(w.file(1, vrl=8192), fh_id='WIDE')
+    w.origin(wl, name='ORIGIN')
+    wi = w.channel(wl, 'INDEX', data=np.array([-2000000000, 500000000], dtype='int32'))
+    w.frame(wl, 'FRAME', [wi], index_type=EN('FrameIndexType', 'BOREHOLE_DEPTH'))
+    w.write(1)
+    wide = driver.run_batch([w.build()])[0]
+    cases.append((copy.deepcopy(wide), ''))
+    corrupt('wide-min', wide, lambda t: wr(t)['frames'][0]['index']['wide']['min'].__setitem__(7, 1), 'C13.IndexMin')
+    corrupt('wide-diff', wide, lambda t: wr(t)['frames'][0]['index']['wide']['dimg'][0].__setitem__(7, 1), 'C13.SpacingValue')
+    # a no-format payload replaced after the record was added
+    n2 = copy.deepcopy(base)
+    n2['id'] = 'st-replace'
+    k = [i for i, e in enumerate(n2['events']) if e['op'] == 'nofmt_data'][0]
+    n2['events'].insert(k + 1, {'op': 'nofmt_replace', 'idx': 1, 'kind': 'bytes', 'payload': [1, 2, 3], 'outcome': 'ok', 'hc': False, 'proc': 1})
+    cases.append((n2, 'C16.NofmtPayload'))
     v, _ = validate.validate([c[0] for c in cases])
     for t, expect in cases:
+        if expect == '':
+            say(v[t['id']]['clauses'] == [], f"uncorrupted trace '{t['id']}' is accepted (got {v[t['id']]['clauses'][:3]})")
+            continue
         got = [c for c, _ in v[t['id']]['clauses']]
         say(any(g.startswith(expect) for g in got), f"corrupted field '{t['id']}' is rejected with {expect}* (got {sorted(set(got))[:4]})")
 
